@@ -3,8 +3,8 @@
 From Coq Require Import List NArith Bool.
 From SNT Require Import Base.Outcome Automata.Regex Automata.NFA Automata.Build Automata.Compile
   Automata.BuildLeaves Automata.BuildProofs Automata.CompileSpec Automata.CompileProofs Automata.BuildKeys
-  Automata.C15Main Automata.RegexProofs Automata.CompileTotal.
-From SNT Require Automata.ProdInstances Gen.ProdNFA Gen.ProdDFA.
+  Automata.C15Main Automata.RegexProofs Automata.CompileTotal Automata.CompileFast Automata.CompileFastProofs
+  Automata.TagSpec.
 Import ListNotations.
 Local Open Scope N_scope.
 
@@ -96,14 +96,24 @@ Theorem C15_tags_reachable : forall (e : regex) (fuel cf : nat) (d : dfa),
       forall t, In t (dtags i) <-> exists q, RS (build e) s q /\ has_tag (build e) q t.
 Proof. exact main_tags_reachable. Qed.
 
-(* Tags at the level of the expression — PARTIAL: only for expressions of the
-   tagged-choice shape `tagwf` (a tag on an untagged expression, choices of such
-   — nested choices allowed, as the decoder's automata —, or untagged).  There the
-   tags reported after a string are exactly the tags of the alternatives that
-   match the string.  Not covered: a tagged choice below Seq / Opt / Plus / Many,
-   tags below tags (the expression-level law there depends on which operators
-   share their stop state with an operand; C15_tags_reachable still applies). *)
-Theorem C15_tags_partial : forall (e : regex) (fuel cf : nat) (d : dfa),
+(* Tags at the level of the expression, GENERAL law: every expression, tags in
+   arbitrary positions (below Seq / Opt / Plus / Many, tags below tags).  The tags
+   reported after a string s are exactly the t for which some (t, r) of `tex e`
+   has r matching s (tag_law_spec; Automata/TagSpec.v).  `tex` follows where
+   tags live: a tag sits on the stop state of the automaton it was put on; Plus
+   and the last operand of Seq share their stop state with the result (so an
+   outer tag overwrites an inner one there), Choice / Opt / Many allocate a fresh
+   untagged stop state; a tagged sub-expression e' in context contributes
+   (t, prefix-context . e'). *)
+Theorem C15_tags : forall (e : regex) (fuel cf : nat) (d : dfa),
+  compile fuel cf (build e) = Ok d ->
+  forall s k, bytes s -> transition_many d (dstart d) s = Ok (Some k) ->
+    exists i, info d k = Ok i /\ forall t, In t (dtags i) <-> tag_law_spec e s t.
+Proof. exact main_tags_general. Qed.
+
+(* The special case of the tagged-choice shape `tagwf` (the decoder's automata),
+   in the words of the property: the tags of the alternatives that match. *)
+Theorem C15_tags_tagged_choice : forall (e : regex) (fuel cf : nat) (d : dfa),
   tagwf e = true -> compile fuel cf (build e) = Ok d ->
   forall s k, bytes s -> transition_many d (dstart d) s = Ok (Some k) ->
     exists i, info d k = Ok i /\ forall t, In t (dtags i) <-> tag_spec e s t.
@@ -118,25 +128,12 @@ Theorem C15_isempty : forall e : regex,
   (isempty e = true -> forall s, ~ matches e s) /\ (isempty e = false -> exists s, matches e s).
 Proof. exact isempty_correct. Qed.
 
-(* The production automata of src/decoder.rs (anchor decoder.rs:457-1028): each
-   compiled DFA, as dumped from the running code on this run, is the subset
-   construction of the NFA it was compiled from, as dumped right before
-   compile(): running the DFA on any byte string is dead exactly when no NFA
-   state is reachable, otherwise accepting / tags / terminal are those of the
-   set of reachable NFA states.  Translation validation: a verified certificate
-   checker (Automata/ProdCheck.v, ProdCheckProofs.check_sound) evaluated on the
-   regenerated instances by vm_compute. *)
-Theorem C15_production_event :
-  ProdInstances.subset_construction ProdNFA.event_nfa_data ProdDFA.event_data.
-Proof. exact ProdInstances.event_subset_construction. Qed.
-
-Theorem C15_production_command :
-  ProdInstances.subset_construction ProdNFA.command_nfa_data ProdDFA.command_data.
-Proof. exact ProdInstances.command_subset_construction. Qed.
-
-Theorem C15_production_utf8 :
-  ProdInstances.subset_construction ProdNFA.utf8_nfa_data ProdDFA.utf8_data.
-Proof. exact ProdInstances.utf8_subset_construction. Qed.
+(* The efficient rendering used to evaluate the model under vm_compute (binary
+   NFA state ids, positive-map lookup) is the reference model: equal results for
+   every NFA and every fuel, including Panic / OutOfFuel. *)
+Theorem C15_compile_fast : forall (fuel cf : nat) (n : nfa),
+  compile_fast fuel cf n = compile fuel cf n.
+Proof. exact compile_fast_eq. Qed.
 
 Check C15_main : forall (e : regex) (fuel cf : nat) (d : dfa),
   compile fuel cf (build e) = Ok d ->
@@ -146,6 +143,21 @@ Check C15_main : forall (e : regex) (fuel cf : nat) (d : dfa),
 Theorem C15_optional_inplace_refuted :
   exists e s, (let* d := compile_default (build_v0 e) in dfa_matches d s) = Ok true /\ matcher e s = false.
 Proof. exists (Opt (Seq [Plus (Lit [97]); Lit [98]])), [97]. vm_compute. split; reflexivity. Qed.
+
+(* tags below Seq / Opt / Plus and a tag overwriting another one (3 by 2: Plus
+   shares its stop state with its operand); the DFA and the expression-level
+   specification evaluated side by side *)
+Example C15_tags_general_nonvacuous :
+  let e := Seq [Tag 1 (Lit [97]); Opt (Tag 2 (Plus (Tag 3 (Lit [98])))); Many (Tag 4 (Lit [99]))] in
+  let spec s := fold_left (fun acc a => if matcher (snd a) s then nins (fst a) acc else acc) (tex e) [] in
+  let impl s := let* d := compile_default (build e) in
+                let* r := transition_many d (dstart d) s in
+                match r with Some k => let* i := info d k in Ok (dtags i) | None => Ok [] end in
+  (impl [97], impl [97; 98], impl [97; 98; 98], impl [97; 99], impl [97; 98; 99; 99])
+  = (Ok [1], Ok [2], Ok [2], Ok [4], Ok [4]) /\
+  (spec [97], spec [97; 98], spec [97; 98; 98], spec [97; 99], spec [97; 98; 99; 99])
+  = ([1], [2], [2], [4], [4]).
+Proof. vm_compute. split; reflexivity. Qed.
 
 Example C15_tags_nonvacuous :
   let e := Choice [Tag 1 (Lit [97; 98; 99]); Tag 2 (Lit [97; 98; 100]); Tag 3 (Seq [Lit [97]; Many (Pred [98; 99])])] in
